@@ -211,7 +211,7 @@ def same_table(exp, got, ctx=None, check_index=True, check_dtype=True, cat_stric
     for i, c in enumerate(exp.columns):
         fails += compare_series(c, exp.iloc[:, i], got.iloc[:, i], ctx, check_dtype, cat_strict)
     if check_index:
-        fails += compare_index(exp.index, got.index, ctx)
+        fails += compare_index(exp.index, got.index, ctx, cat_strict=cat_strict)
     return fails
 
 
@@ -221,7 +221,7 @@ def _unnamed(names):
     return [None if (isinstance(n, str) and re.fullmatch(r"__index_level_\d+__", n)) else n for n in names]
 
 
-def compare_index(ei, gi, ctx=None):
+def compare_index(ei, gi, ctx=None, cat_strict=True):
     fails = []
     if isinstance(ei, pd.RangeIndex):
         gnames = [None] if (list(ei.names) == [None] and list(gi.names) == ["index"]) else list(gi.names)
@@ -244,7 +244,7 @@ def compare_index(ei, gi, ctx=None):
         es = pd.Series(ei.get_level_values(lv)).reset_index(drop=True)
         gs = pd.Series(gi.get_level_values(lv)).reset_index(drop=True)
         sub = compare_series("<index:%s>" % (ei.names[lv],), es, gs, ctx,
-                             check_dtype=False)
+                             check_dtype=False, cat_strict=cat_strict)
         for f in sub:
             f["index"] = True
         fails += sub
